@@ -1,7 +1,7 @@
 (* C01 — Two endpoints built on the library interoperate, even across transport loss.
    Statements only.  Nothing else may be added to this file. *)
 From MQ Require Import Base.Prelude Alloc.Alloc Framing.Framing Framing.FramingProofs Conn.Types Conn.ConnRecord Conn.Step
-                       Corr.ConnTrace Conn.Scope Conn.Session Conn.IdsQuota Conn.Own Conn.OwnFrame Conn.OwnStep Conn.Run Conn.PairQos Conn.PairQos0 Conn.PairQos5 Conn.PairSeq Conn.PairSeq5 Conn.PairConc Conn.PairBi Conn.PairConc5 Conn.SessInv Conn.PairLoss Conn.PairLossAcc Conn.PairLossS.
+                       Corr.ConnTrace Conn.Scope Conn.Session Conn.IdsQuota Conn.Own Conn.OwnFrame Conn.OwnStep Conn.Run Conn.PairQos Conn.PairQos0 Conn.PairQos5 Conn.PairSeq Conn.PairSeq5 Conn.PairConc Conn.PairBi Conn.PairConc5 Conn.PairBi5 Conn.SessInv Conn.PairLoss Conn.PairLossAcc Conn.PairLossS.
 
 (* what the pair property rests on, each proved for ALL states of one endpoint:
    (i) delivery in any fragmentation is the same byte stream (C09) *)
@@ -215,6 +215,34 @@ Theorem C01_pair_two_way_invariant_after_handshake : forall gA gB a b,
   inv2 gA gB (mkBi a b [] [] [] [] [] []).
 Proof. exact inv2_init. Qed.
 Print Assumptions C01_pair_two_way_invariant_after_handshake.
+
+(* BOTH DIRECTIONS AT ONCE, v5.0 (Conn/PairBi5.v): each side publishes within the other side's Receive Maximum and Maximum
+   Packet Size while it receives and acknowledges; the invariant is the v5.0 one-direction invariant [inv5] twice.  For
+   EVERY schedule nothing fails and no limit is overrun; once the links have drained each application has been notified
+   of exactly what the other side published, once each, in order, both Receive Maximum accounts are back to full and
+   neither receiver role holds an outstanding entry *)
+Theorem C01_pair_two_way_v5_exactly_once : forall gA gB l s,
+  inv25 gA gB s -> Forall good_act25 l ->
+  exists s1 s2, run_sched25 gA gB s l = Some s1 /\ run_sched25 gA gB s1 (drain2 (measure2 s1)) = Some s2 /\
+                qab s2 = [] /\ qba s2 = [] /\ delB s2 = pubA s1 /\ delA s2 = pubB s1 /\
+                vacancy (ea s2) = c_send_max (ea s2) /\ vacancy (eb s2) = c_send_max (eb s2) /\
+                c_publish_recv (ea s2) = [] /\ c_publish_recv (eb s2) = [].
+Proof. exact two_way5_exactly_once. Qed.
+Print Assumptions C01_pair_two_way_v5_exactly_once.
+
+Theorem C01_pair_two_way_v5_schedule_keeps_invariant : forall gA gB l s,
+  inv25 gA gB s -> Forall good_act25 l -> exists s', run_sched25 gA gB s l = Some s' /\ inv25 gA gB s'.
+Proof. exact sched25_ok. Qed.
+Print Assumptions C01_pair_two_way_v5_schedule_keeps_invariant.
+
+Theorem C01_pair_two_way_v5_invariant_after_handshake : forall gA gB a b,
+  OWN gA a -> ready5 a -> c_auto_pub a = true -> c_ta_send a = None -> ack_fits gA a -> c_send_count a = 0 -> c_qos2 a = [] -> c_publish_recv a = [] ->
+  OWN gB b -> ready5 b -> c_auto_pub b = true -> c_ta_send b = None -> ack_fits gB b -> c_send_count b = 0 -> c_qos2 b = [] -> c_publish_recv b = [] ->
+  (forall R, c_recv_max b = Some R -> exists m, c_send_max a = Some m /\ m <= R) ->
+  (forall R, c_recv_max a = Some R -> exists m, c_send_max b = Some m /\ m <= R) ->
+  inv25 gA gB (mkBi a b [] [] [] [] [] []).
+Proof. exact inv25_init. Qed.
+Print Assumptions C01_pair_two_way_v5_invariant_after_handshake.
 
 (* ACROSS TRANSPORT LOSS (v3.1.1, automatic responses, persistent sessions, a client as sender and a server as receiver):
    one more action, [Lose] — both sides are told the transport is closed, everything in flight is gone, the client
@@ -519,6 +547,36 @@ Example C01_pair_two_way_nonvacuous :
   end.
 Proof. vm_compute. repeat split; try reflexivity; lia. Qed.
 
+
+(* the v5.0 two-way theorem is not vacuous: Receive Maximum 2 towards B and 3 towards A; A's third publication is
+   skipped while two of its exchanges are in flight and accepted later; both accounts are full again after draining *)
+Example C01_pair_two_way_v5_nonvacuous :
+  let gA := mkCfg RClient 65535 2 in
+  let gB := mkCfg RServer 65535 2 in
+  let cn := mkPkt 1 V50 0 0 false false [] None 0 0 24 false 0 true 0 None (Some 3) (Some 100) None None in
+  let ca := mkPkt 2 V50 0 0 false false [] None 0 0 11 true 0 false 0 None (Some 2) (Some 50) None None in
+  let ops_a := [OSetAutoPub true; OSend cn; ORecv [32;9;0;0;6;33;0;2;39;0;0;0;50] (PROk ca)] in
+  let ops_b := [OSetAutoPub true; ORecv [16;13;0;4;77;81;84;84;5;2;0;0;0;0;0] (PROk cn); OSend ca] in
+  let pb := fun id q pay => mkPkt 3 V50 id q false false [116] None pay 0 (8 + pay) false 0 false 0 None None None None None in
+  let sched := [PubA (pb 1 2 0); PubB (pb 1 1 7); PubA (pb 2 1 1); PubA (pb 3 1 9); ToB; PubB (pb 2 2 8); ToA; ToA; ToB; ToB; ToA; ToA;
+                PubA (pb 3 2 2); ToB] in
+  match run_state gA (conn_new gA V50) ops_a, run_state gB (conn_new gB V50) ops_b with
+  | Some a, Some b =>
+      c_send_max a = Some 2 /\ c_recv_max a = Some 3 /\ c_send_max b = Some 3 /\ c_recv_max b = Some 2 /\
+      match run_sched25 gA gB (mkBi a b [] [] [] [] [] []) sched with
+      | Some s1 =>
+          pubA s1 = [pb 1 2 0; pb 2 1 1; pb 3 2 2] /\ pubB s1 = [pb 1 1 7; pb 2 2 8] /\ vacancy (ea s1) = Some 0 /\
+          (length (qab s1) + length (qba s1) >= 3)%nat /\
+          match run_sched25 gA gB s1 (drain2 (measure2 s1)) with
+          | Some s2 => delB s2 = pubA s1 /\ delA s2 = pubB s1 /\ qab s2 = [] /\ qba s2 = [] /\
+                       vacancy (ea s2) = Some 2 /\ vacancy (eb s2) = Some 3 /\ c_publish_recv (ea s2) = [] /\ c_publish_recv (eb s2) = []
+          | None => False
+          end
+      | None => False
+      end
+  | _, _ => False
+  end.
+Proof. vm_compute. repeat split; try reflexivity; lia. Qed.
 
 (* the v5.0 concurrent theorem is not vacuous: Receive Maximum 2 towards the server; the third publication is skipped
    while two exchanges are in flight (no vacancy) and accepted once one has completed *)
